@@ -121,18 +121,19 @@ package fox
 //@   requires c != nil && c.params != nil && c.tsrParams != nil && c.skipNds != nil
 //@   requires safety-target: target != nil
 //@   modifies *c.params, *c.tsrParams, *c.skipNds, E[Param], E[skippedNode]
-//@   ensures n == byPathNode(tree, target, path) && tsr == byPathTsr(tree, target, path) && (tsr ==> n != nil)
+//@   ensures n == byPathNode(tree, target, path) && tsr == byPathTsr(tree, target, path) && (tsr ==> n != nil) && (n != nil ==> n.route != nil)
 //@ extern lookupByDomain
 //@   requires c != nil && c.params != nil && c.tsrParams != nil && c.skipNds != nil
 //@   requires safety-target: target != nil
 //@   modifies *c.params, *c.tsrParams, *c.skipNds, E[Param], E[skippedNode]
-//@   ensures n == byDomainNode(tree, target, host, path) && tsr == byDomainTsr(tree, target, host, path) && (tsr ==> n != nil)
+//@   ensures n == byDomainNode(tree, target, host, path) && tsr == byDomainTsr(tree, target, host, path) && (tsr ==> n != nil) && (n != nil ==> n.route != nil)
 
 //@ func (roots).lookup props C09,C08,C01 partial
 //@   requires c != nil && c.params != nil && c.tsrParams != nil && c.skipNds != nil
 //@   modifies *c.params, *c.tsrParams, *c.skipNds, c.tsr, E[Param], E[skippedNode]
 //@   assert-at call lookupByDomain#1 : stripped-host: same(arg_host, netutil.StripHostPort(hostPort)) && same(arg_path, path) && arg_target == r[index] && arg_lazy == lazy
 //@   ensures tsr-flag: c.tsr ==> old(c.tsr)
+//@   ensures leaf: n != nil ==> n.route != nil
 
 //@ -- ---------------------------------------------------------------- C06 / C16: effect clauses (call-graph closure)
 //@ effects (*Router).ServeHTTP : nolock props C06
